@@ -150,6 +150,7 @@ class Ctx:
         self.counters = {}
         self.known_hits = {}
         self.violations = []
+        self._collected = set()
         self.notes = []
 
     def ev(self, n=1):
@@ -181,6 +182,13 @@ class Ctx:
         f = self.known(sig, case)
         if f is not None:
             self.known_hits[f["id"]] = self.known_hits.get(f["id"], 0) + 1
+            return
+        if os.environ.get("VERIF_COLLECT"):
+            # triage mode: collect one case per root-cause signature and keep searching
+            key = json.dumps(list(sig), default=repr)
+            if key not in self._collected:
+                self._collected.add(key)
+                self.violations.append({"sig": list(sig), "case": case, "msg": msg})
             return
         raise Violation(sig, case, msg)
 
